@@ -39,6 +39,33 @@ func (m *coreMon) check(op string, res string, cur *coreSnap) {
 	for _, q := range cur.Seqs {
 		totTokens = totTokens.Add(q.Tokens)
 	}
+	// ---- C03 pending packets across forks (model-independent): a fork shows as a new revision
+	if prev != nil {
+		forkStart := map[int]uint64{}
+		for ri, r := range cur.Ras {
+			if ri < len(prev.Ras) && r.Exists && prev.Ras[ri].Exists && len(r.Revs) > len(prev.Ras[ri].Revs) {
+				forkStart[ri] = r.Revs[len(r.Revs)-1][1]
+			}
+		}
+		curSet := map[corePk]bool{}
+		for _, pk := range cur.Pk {
+			curSet[pk] = true
+			if st, ok := forkStart[pk.Ra]; ok && pk.Ph >= st {
+				m.violate("C03/packets/pending-packet-above-fork-height-remains", fmt.Sprintf("r%d forked, new revision starts at %d, but a pending %s packet with proof height %d (seq %d) is still stored", pk.Ra, st, pk.T, pk.Ph, pk.Seq))
+			}
+		}
+		if f[0] != "packet" && f[0] != "reset" {
+			for _, pk := range prev.Pk {
+				st, forked := forkStart[pk.Ra]
+				if !curSet[pk] && !(forked && pk.Ph >= st) {
+					m.violate("C03/packets/packet-outside-fork-range-changed", fmt.Sprintf("pending %s packet r%d ph=%d seq=%d disappeared in `%s`", pk.T, pk.Ra, pk.Ph, pk.Seq, f[0]))
+				}
+			}
+			if len(forkStart) > 0 {
+				m.r.Hit("fork-with-pending-packets/" + b2s(len(prev.Pk) > 0))
+			}
+		}
+	}
 	// ---- C06 custody
 	if !totTokens.Equal(cur.Mod) {
 		m.violate("C06/custody/module-balance-ne-sum-of-bonds", fmt.Sprintf("module %s, sum of tokens %s", cur.Mod, totTokens))
@@ -478,6 +505,7 @@ func coreGenParams(g *Rng, focus string) coreParams {
 }
 
 type coreGen struct {
+	pkSeq int
 	g     *Rng
 	h     *coreH
 	focus string
@@ -572,6 +600,25 @@ func (c *coreGen) next(s *coreSnap, inBlock *bool, step int) string {
 		}
 	} else if len(members) > 0 && g.Chance(40) {
 		return fmt.Sprintf("optin a%d 1", members[g.Intn(len(members))])
+	}
+	if pkP := map[string]int{"C03": 12}[c.focus] + 3; ra.Latest > 0 && g.Chance(pkP) {
+		// a pending delayed packet around (and beyond) the latest posted height
+		lh := uint64(0)
+		if n := len(ra.States); n > 0 {
+			lh = ra.States[n-1].Start + ra.States[n-1].Num - 1
+		}
+		ph := lh + uint64(g.Intn(9))
+		if ph > 4 {
+			ph -= 4
+		}
+		if ph == 0 {
+			ph = 1
+		}
+		c.pkSeq++
+		if ph > lh {
+			c.r.Hit("packet-above-latest-height")
+		}
+		return fmt.Sprintf("packet r%d ph=%d seq=%d t=%s", ri, ph, c.pkSeq, []string{"R", "A", "T"}[g.Intn(3)])
 	}
 	w := g.Intn(100)
 	switch {
@@ -756,6 +803,14 @@ func (c *coreGen) genFraud(s *coreSnap, ri int, members []int) string {
 		case 3:
 			h = ra.States[n-1].Start + ra.States[n-1].Num + uint64(1+g.Intn(3))
 			c.r.Hit("fork-beyond-latest")
+			// with pending packets above the latest height: request a height that covers some of them
+			for _, pk := range s.Pk {
+				if pk.Ra == ri && pk.Ph >= ra.States[n-1].Start+ra.States[n-1].Num && g.Chance(60) {
+					h = pk.Ph + uint64(1+g.Intn(2))
+					c.r.Hit("fork-beyond-latest-covering-a-pending-packet")
+					break
+				}
+			}
 		case 4, 5:
 			h = st.Start + uint64(g.Intn(int(st.Num)+1))
 			c.r.Hit("fork-inside-state")
@@ -816,10 +871,19 @@ func coreRunTrace(t *testing.T, r *Run, lines []string) {
 
 func TestCore(t *testing.T) { runCore(t, "Core") }
 
+// corePost, when set, runs at the end of a generation run of runCore on the same Run (TestC18 uses
+// it to add the other packages' histories).
+var corePost func(r *Run)
+
 func runCore(t *testing.T, id string) {
 	focus := os.Getenv("CORE_FOCUS")
 	r := NewRun(t, id)
 	defer r.Close()
+	defer func() {
+		if corePost != nil {
+			corePost(r)
+		}
+	}()
 	if lines := ReplayLines(); lines != nil {
 		for _, tr := range SplitTraces(lines) {
 			coreRunTrace(t, r, tr)
